@@ -16,6 +16,7 @@ import (
 	"sync"
 	"time"
 
+	"github.com/gorilla/websocket"
 	"shanhu.io/g/aries"
 	"shanhu.io/g/sniproxy"
 )
@@ -48,6 +49,7 @@ type World struct {
 	cancel    context.CancelFunc
 	wg        sync.WaitGroup
 	connected chan string
+	wsDialer  func(name string) *websocket.Dialer
 }
 
 // Handler serves one connection accepted on an endpoint.
@@ -57,15 +59,25 @@ type Handler func(ep string, conn net.Conn)
 // endpoint per name (the name is also the websocket path, so it must start
 // with "/"), and serves every accepted connection with h in its own goroutine.
 func NewWorld(mode string, lookup func(string) (*sniproxy.Dest, error), names []string, h Handler) (*World, error) {
+	return NewWorldCfg(mode, &sniproxy.ServerConfig{Lookup: lookup}, names, h, nil)
+}
+
+// NewWorldCfg is NewWorld with a full server configuration (OnConnect is
+// taken over by the world) and, optionally, the websocket dialer each endpoint
+// uses for its control and side connections.
+func NewWorldCfg(mode string, cfg *sniproxy.ServerConfig, names []string, h Handler,
+	wsDialer func(name string) *websocket.Dialer) (*World, error) {
 	w := &World{Mode: mode, Endpoints: map[string]*sniproxy.Endpoint{}, connected: make(chan string, 256)}
-	s := sniproxy.NewServer(&sniproxy.ServerConfig{Lookup: lookup,
-		OnConnect: func(user string) int64 {
-			select {
-			case w.connected <- user:
-			default:
-			}
-			return 0
-		}})
+	c := *cfg
+	c.OnConnect = func(user string) int64 {
+		select {
+		case w.connected <- user:
+		default:
+		}
+		return 0
+	}
+	w.wsDialer = wsDialer
+	s := sniproxy.NewServer(&c)
 	w.Server = s
 	lis, err := net.ListenTCP("tcp", &net.TCPAddr{IP: net.IPv4(127, 0, 0, 1)})
 	if err != nil {
@@ -96,8 +108,11 @@ func NewWorld(mode string, lookup func(string) (*sniproxy.Dest, error), names []
 func (w *World) AddEndpoint(name string, h Handler) error {
 	dctx, dcancel := context.WithTimeout(context.Background(), 10*time.Second)
 	defer dcancel()
-	ep, err := sniproxy.Dial(dctx, &sniproxy.StaticRouter{Host: w.Back.Listener.Addr().String()},
-		&sniproxy.DialOption{Path: name, WithoutTLS: true, TunnelOptions: Options(w.Mode)})
+	opt := &sniproxy.DialOption{Path: name, WithoutTLS: true, TunnelOptions: Options(w.Mode)}
+	if w.wsDialer != nil {
+		opt.Dialer = w.wsDialer(name)
+	}
+	ep, err := sniproxy.Dial(dctx, &sniproxy.StaticRouter{Host: w.Back.Listener.Addr().String()}, opt)
 	if err != nil {
 		return fmt.Errorf("dial endpoint %s: %w", name, err)
 	}
